@@ -185,7 +185,7 @@ struct PrimRun {
         int B = is256 ? BK_B256 : BK_B384, F = is256 ? BK_F256 : BK_F384, Wd = is256 ? BK_W512 : BK_W768, T = is256 ? BK_T512 : BK_T768;
         int ab, bb, ob;
         switch (code) {
-        case JV_PR_BI384_ADD: case JV_PR_BI384_SUB: case JV_PR_BI384_SHL1: case JV_PR_BI256_ADD: case JV_PR_BI256_SUB: case JV_PR_BI256_SHL1: ab = asel ? F : B; bb = bsel ? F : B; ob = B; break;
+        case JV_PR_BI384_ADD: case JV_PR_BI384_SUB: case JV_PR_BI384_SHL1: case JV_PR_BI384_SHL3: case JV_PR_BI256_ADD: case JV_PR_BI256_SUB: case JV_PR_BI256_SHL1: ab = asel ? F : B; bb = bsel ? F : B; ob = B; break;
         case JV_PR_BI768_MUL: case JV_PR_BI512_MUL: ab = asel ? F : B; bb = bsel ? F : B; ob = (ab == F && bb == F) ? T : Wd; break;
         case JV_PR_BI768_SQR: case JV_PR_BI512_SQR: ab = asel ? F : B; bb = ab; ob = ab == F ? T : Wd; break;
         case JV_PR_FP384_REDC: case JV_PR_FP256_REDC: ab = T; bb = T; ob = F; break;
